@@ -288,7 +288,7 @@ pub fn check_paths(h: &History, obs: &mut Obs) -> Vec<Violation> {
         return out;
     }
     // builder aliases
-    for bits in [1u8, 2, 4, 7, 8, 11, 16, 24] {
+    for bits in [1u8, 2, 4, 7, 8, 11, 12, 16, 24] {
         let mut h2 = h.clone();
         h2.cfg.path ^= bits;
         // path bit 4 moves creation time / language to the builder setters: same metadata only if
